@@ -142,8 +142,19 @@ def _probe_grid_points(mol, dm, level, npts, seed):
 @st.composite
 def st_nldf_case(draw):
     nldf = draw(G.st_nldf())
-    mols = [draw(G.st_mol(min_atoms=1, max_atoms=2, elements=["H", "He", "Li", "Be", "C", "N", "O", "F"], max_elec=12,
-                          levels=(1,), bases=("sto-3g", "6-31g"), min_elec=2)) for _ in range(3)]
+    # a panel of three DIFFERENT systems (the panel statistic is a median over systems: two copies of one diffuse
+    # molecule would decide it alone -- thorough tier, seed 2: Li-He twice, 4.2e-2 against 4e-2): the heaviest element of the
+    # three molecules is drawn without replacement, the rest of each molecule freely
+    heavy = draw(st.permutations(["He", "Li", "Be", "C", "N", "O", "F"]))[:3]
+    mols = []
+    for el in heavy:
+        others = ["H", "He"] if el in ("O", "F", "N", "C") else ["H"]
+        mols.append(draw(G.st_mol(min_atoms=1, max_atoms=2, elements=[el] + others, max_elec=12,
+                                  levels=(1,), bases=("sto-3g", "6-31g"), min_elec=2)))
+        if not any(a[0] == el for a in mols[-1]["atoms"]):
+            mols[-1]["atoms"][0][0] = el
+            ne = sum(G.ZNUM[a[0]] for a in mols[-1]["atoms"])
+            mols[-1]["spin"] = ne % 2
     return {"mols": mols, "nldf": nldf, "dm": draw(G.st_dm(uks=False)), "npts": draw(st.integers(16, 32)),
             "seed": draw(st.integers(0, 2**31 - 1)), "plan_type": draw(st.sampled_from(["gaussian", "spline"])),
             "spin_channel": draw(st.booleans())}
